@@ -5,6 +5,7 @@ package main
 
 import (
 	"fmt"
+	"go/types"
 
 	"golang.org/x/tools/go/ssa"
 )
@@ -97,11 +98,20 @@ func globalReadOnlyValue(e *Engine, g *ssa.Global) error {
 // globalLoadFacts: facts about a value just loaded from a package-level variable.
 func (f *Frame) globalLoadFacts(cur *blockCur, g *ssa.Global, v Val) {
 	c := f.c
-	if !isInitOnlyErrorGlobal(c.eng, g) {
+	name, ok := c.globalErrConst(g, v.T)
+	if !ok {
 		return
 	}
+	cur.assume(fmt.Sprintf("(= %s %s)", v.S, name))
+}
+
+// globalErrConst: the constant that stands for the (fixed) value of an init-only package-level error variable.
+func (c *FuncCtx) globalErrConst(g *ssa.Global, t types.Type) (string, bool) {
+	if !isInitOnlyErrorGlobal(c.eng, g) {
+		return "", false
+	}
 	name := "gv_" + quoteSymInner(g.Pkg.Pkg.Name()+"_"+g.Name())
-	sort := c.so.sortOf(v.T)
+	sort := c.so.sortOf(t)
 	if !c.needed[name] {
 		c.needDecl(name, fmt.Sprintf("(declare-const %s %s)", name, sort))
 		c.gerrIdx++
@@ -113,5 +123,5 @@ func (f *Frame) globalLoadFacts(cur *blockCur, g *ssa.Global, v Val) {
 		}
 		c.assume("package-level error values written only by init are fixed, non-nil and pairwise distinct (" + g.Name() + ")")
 	}
-	cur.assume(fmt.Sprintf("(= %s %s)", v.S, name))
+	return name, true
 }
